@@ -13,18 +13,6 @@ recomputed fields) just as the model parsed from `encodeMdl a` does, and the who
 namespace Physis.Mdl
 open Physis Physis.Spec.Mdl
 
-theorem getElem?_lods_redundant (ρ : Redundant) (L : List MeshLod) :
-    ∀ (j i : Nat), (ρ.lods j L)[i]? = L[i]?.map (ρ.lod (j + i)) := by
-  induction L with
-  | nil => intro j i; simp [Redundant.lods]
-  | cons x xs ih =>
-    intro j i
-    cases i with
-    | zero => simp [Redundant.lods]
-    | succ i =>
-      simp only [Redundant.lods, List.getElem?_cons_succ, ih (j + 1) i]
-      rw [show j + 1 + i = j + (i + 1) by omega]
-
 theorem map_stripLod_redundant (ρ : Redundant) (L : List MeshLod) :
     ∀ j, (ρ.lods j L).map stripLod = L.map stripLod := by
   induction L with
